@@ -315,6 +315,7 @@ func (e *executor) verifyEntry(f *Function, pt string, spec *ProgSpec) error {
 	// pass_unmodified
 	if !spec.NoPassUnmodified {
 		k := e.tm.declConst("pu_idx", smt.BV(64))
+		var pre smt.Term // ret == PASS and not acts, for the leaf handled last
 		mkGoal := func(retT smt.Term, s *State, mem *RegMem) (smt.Term, []string, error) {
 			acts, err := spec.actsTerm(s)
 			if err != nil {
@@ -326,7 +327,9 @@ func (e *executor) verifyEntry(f *Function, pt string, spec *ProgSpec) error {
 				final = e.flush(mem).Base
 				same = smt.And(same, smt.Implies(e.tm.icmp("ult", k, e.pktLen0), smt.Eq(smt.Select(final, k), smt.Select(e.res.pkt0, k))))
 			}
-			goal := smt.Implies(e.tm.icmp("eq", retT, lit(uint64(spec.Pass), 32)), smt.Or(acts, e.tm.named("pkt_unmodified", same)))
+			isPass := e.tm.icmp("eq", retT, lit(uint64(spec.Pass), 32))
+			goal := smt.Implies(isPass, smt.Or(acts, e.tm.named("pkt_unmodified", same)))
+			pre = smt.And(isPass, smt.Not(acts))
 			return goal, []string{retT.S, k.S, smt.Select(final, k).S, smt.Select(e.res.pkt0, k).S, s.pktLen.S}, nil
 		}
 		src := fmt.Sprintf("ret == %d => packet bytes and length unchanged (or acts: %q)", spec.Pass, spec.Acts)
@@ -350,7 +353,7 @@ func (e *executor) verifyEntry(f *Function, pt string, spec *ProgSpec) error {
 				}
 				if o := e.oblige(fr, ls, "pass_unmodified", "via "+lf.label, goal, src); o != nil {
 					o.values = vals
-					o.hints = e.storeWitnesses(sn.writes)
+					o.hints = e.storeWitnesses(sn.writes, pre)
 				}
 				continue
 			}
@@ -362,7 +365,7 @@ func (e *executor) verifyEntry(f *Function, pt string, spec *ProgSpec) error {
 			}
 			if o := e.oblige(fr, &ls, "pass_unmodified", "via "+lf.label, goal, src); o != nil {
 				o.values = vals
-				o.hints = e.storeWitnesses(out.writes)
+				o.hints = e.storeWitnesses(out.writes, pre)
 			}
 		}
 	}
@@ -374,8 +377,8 @@ func (e *executor) verifyEntry(f *Function, pt string, spec *ProgSpec) error {
 // initial packet byte at that address, the address is below the initial
 // length, and no later store covers that address".  Each is sufficient for
 // the exact goal to fail (final[a] is then the stored byte).
-func (e *executor) storeWitnesses(w *factNode) []smt.Term {
-	if e.pktOpaque {
+func (e *executor) storeWitnesses(w *factNode, pre smt.Term) []smt.Term {
+	if e.pktOpaque || pre.IsFalse() {
 		return nil
 	}
 	var idx []int
@@ -396,7 +399,7 @@ func (e *executor) storeWitnesses(w *factNode) []smt.Term {
 		}
 		ev := e.pktStores[i]
 		a := ev.off
-		parts := []smt.Term{ev.pc, e.tm.icmp("ult", a, e.pktLen0),
+		parts := []smt.Term{pre, ev.pc, e.tm.icmp("ult", a, e.pktLen0),
 			smt.Not(smt.Eq(e.byteTerm(Byte{V: ev.val, Idx: 0}), smt.Select(e.res.pkt0, a)))}
 		for j := i + 1; j < len(e.pktStores); j++ {
 			l := e.pktStores[j]
@@ -604,6 +607,15 @@ func Solve(obligs []*Obligation, solver *smt.Solver, workers int) []Solved {
 	quick := solver
 	if solver.Timeout > 3*time.Second {
 		quick = smt.NewSolver(3*time.Second, solver.CacheDir)
+		quick.Confirm = solver.Confirm
+	}
+	// weak queries: first solver only, unless unsat answers must be confirmed
+	// by a second solver (thorough tier)
+	checkWeak := func(q string) smt.Result {
+		if solver.Confirm {
+			return quick.Check(q)
+		}
+		return quick.CheckQuick(q, quick.Timeout)
 	}
 	out := make([]Solved, len(obligs))
 	type job struct {
@@ -654,7 +666,7 @@ func Solve(obligs []*Obligation, solver *smt.Solver, workers int) []Solved {
 					}
 					continue
 				}
-				r := quick.CheckQuick(j.weak, quick.Timeout)
+				r := checkWeak(j.weak)
 				if r.Status == "unsat" {
 					for _, i := range j.idx {
 						s := &out[i]
@@ -671,7 +683,7 @@ func Solve(obligs []*Obligation, solver *smt.Solver, workers int) []Solved {
 					if len(j.idx) > 1 {
 						w := weakGroup([]*Obligation{out[i].O})
 						if w != "" {
-							r := quick.CheckQuick(w, quick.Timeout)
+							r := checkWeak(w)
 							if r.Status == "unsat" {
 								s := &out[i]
 								s.Status, s.Solver, s.TimeS, s.QueryBytes = "unsat", r.Solver+"/guards", r.TimeS+spent, len(w)
